@@ -418,3 +418,23 @@ mut("C08", "r4-raw-format-byte", "database/record/wrapper.go",
     "\tformatID := varint.Pack8(w.Format)\n\tdata := make([]byte, 0, len(formatID)+len(w.Data))\n\tdata = append(data, formatID...)\n\tdata = append(data, w.Data...)", "\tdata := make([]byte, len(w.Data)+1)\n\tdata[0] = w.Format\n\tcopy(data[1:], w.Data)", "C08-R4|format identifier encoding", comment="reverts fix c5a380d")
 mut("C08", "r5-block-forgets-prefix", "formats/varint/helpers.go",
     "\tif l > uint64(len(data)-n) {", "\tif l > uint64(len(data)) {", "C08-R5|bounded before conversion")
+
+# ---- C16 -------------------------------------------------------------------
+mut("C16", "r1-replace-keeps-offset", "container/container.go",
+    "\tc.compartments = [][]byte{data}\n\tc.offset = 0\n}", "\tc.compartments = [][]byte{data}\n}", "C16-R1|Replace", canary=True, comment="reverts fix 3f128d4")
+mut("C16", "r1-unmarshal-keeps-offset", "container/serialization.go",
+    "\tc.compartments = [][]byte{raw}\n\tc.offset = 0", "\tc.compartments = [][]byte{raw}", "C16-R1|UnmarshalJSON")
+mut("C16", "r2-peek-unguarded", "container/container.go",
+    "\tif c.offset < len(c.compartments) && len(c.compartments[c.offset]) >= n {", "\tif len(c.compartments[c.offset]) >= n {", "C16-R2|Peek", comment="reverts fix de5fb17")
+mut("C16", "r3-block-unbounded", "container/container.go",
+    "\tif blockSize > uint64(c.Length()) {\n\t\treturn nil, errors.New(\"container: not enough data to return\")\n\t}\n", "", "C16-R3|GetNextBlock", comment="reverts fix c331037")
+mut("C16", "r3-peekcontainer-negative-empty", "container/container.go",
+    "\tif n < 0 {\n\t\treturn nil\n\t} else if n == 0 {\n\t\treturn &Container{}\n\t}", "\tif n <= 0 {\n\t\treturn &Container{}\n\t}", "C16-R3|negative size is an error")
+mut("C16", "r4-n32-peek4", "container/container.go",
+    "\tbuf := c.Peek(5)\n\tnum, n, err := varint.Unpack32(buf)", "\tbuf := c.Peek(4)\n\tnum, n, err := varint.Unpack32(buf)", "C16-R4|GetNextN32")
+mut("C16", "r4-n16-skip-before-check", "container/container.go",
+    "\tnum, n, err := varint.Unpack16(buf)\n\tif err != nil {\n\t\treturn 0, err\n\t}\n\tc.skip(n)", "\tnum, n, err := varint.Unpack16(buf)\n\tc.skip(n)\n\tif err != nil {\n\t\treturn 0, err\n\t}", "C16-R4|GetNextN16 / consume only on success")
+mut("C16", "r5-get-via-getmax", "container/container.go",
+    "\tbuf := c.Peek(n)\n\tif len(buf) < n {\n\t\treturn nil, errors.New(\"container: not enough data to return\")\n\t}\n\tc.skip(len(buf))\n\treturn buf, nil", "\tbuf := c.GetMax(n)\n\tif len(buf) < n {\n\t\treturn nil, errors.New(\"container: not enough data to return\")\n\t}\n\treturn buf, nil", "C16-R5|Get")
+mut("C16", "r6-skip-no-clear", "container/container.go",
+    "\t\t\tc.offset = i + 1\n\t\t\tc.compartments[i] = nil\n\t\t\tif n == 0 {", "\t\t\tc.offset = i + 1\n\t\t\tif n == 0 {", "C16-R6|skip")
